@@ -108,6 +108,64 @@ def split_top(s, sep=',', angle=False):
     return parts
 
 
+PP_DEFINED = {'__linux__', '__GNUC__', '__unix__', 'OSMIUM_WITH_LZ4', '__cplusplus', 'OSMIUM_POOL_THREADS', '__x86_64__'}
+PP_UNDEFINED = {'_WIN32', '_MSC_VER', 'NDEBUG', 'OSMIUM_USE_SLOW_MERCATOR_PROJECTION', '__clang__', '__MINGW32__', '_WIN64', '__APPLE__',
+                'OSMIUM_WITH_TIMER', 'OSMIUM_DEBUG_RING_NO', 'OSMIUM_ITEM_STORAGE_GC_DEBUG', '__FreeBSD__', 'OSMIUM_DEFINE_EXPORT', 'OSMIUM_WITH_DEBUG_OUTPUT'}
+pp_unknown = set()
+
+
+def preprocess(src):
+    """mini conditional pass (#ifdef/#ifndef/#if defined/#else/#elif/#endif) against a fixed macro table;
+    inactive regions and all directive lines are blanked (line structure kept). Unknown macros count as undefined and are recorded."""
+    def is_def(name):
+        if name in PP_DEFINED:
+            return True
+        if name not in PP_UNDEFINED and not name.endswith('_HPP'):
+            pp_unknown.add(name)
+        return False
+
+    def ev(expr):
+        e = re.sub(r'defined\s*\(\s*(\w+)\s*\)|defined\s+(\w+)', lambda m: ' True ' if is_def(m.group(1) or m.group(2)) else ' False ', expr)
+        e = e.replace('&&', ' and ').replace('||', ' or ').replace('!', ' not ')
+        e = re.sub(r'\b(?!True|False|and|or|not)([A-Za-z_]\w*)\b', lambda m: '1' if is_def(m.group(1)) else '0', e)
+        try:
+            return bool(eval(e, {'__builtins__': {}}, {}))
+        except Exception:
+            pp_unknown.add('expr:' + expr.strip())
+            return False
+    out = []
+    stack = []   # (parent_active, this_branch_taken_already, currently_active)
+    active = True
+    for line in src.split('\n'):
+        s = line.strip()
+        if s.startswith('#'):
+            d = re.match(r'#\s*(\w+)\s*(.*)$', s)
+            kw, rest = (d.group(1), d.group(2)) if d else ('', '')
+            if kw == 'ifdef':
+                c = is_def(rest.split()[0]) if active else False
+                stack.append((active, c, active and c)); active = active and c
+            elif kw == 'ifndef':
+                c = (not is_def(rest.split()[0])) if active else False
+                stack.append((active, c, active and c)); active = active and c
+            elif kw == 'if':
+                c = ev(rest) if active else False
+                stack.append((active, c, active and c)); active = active and c
+            elif kw == 'elif':
+                par, taken, _ = stack.pop()
+                c = (not taken) and par and ev(rest)
+                stack.append((par, taken or c, c)); active = c
+            elif kw == 'else':
+                par, taken, _ = stack.pop()
+                c = par and not taken
+                stack.append((par, True, c)); active = c
+            elif kw == 'endif':
+                par, _, _ = stack.pop(); active = par
+            out.append('')
+            continue
+        out.append(line if active else '')
+    return '\n'.join(out)
+
+
 # ---------------------------------------------------------------- locating
 
 def find_class(src, cls):
@@ -754,7 +812,7 @@ def extract(repo, u, R=None, src_cache=None, siblings=None):
     if src_cache is not None and path in src_cache:
         src = src_cache[path]
     else:
-        src = strip_comments(open(path).read())
+        src = preprocess(strip_comments(open(path).read()))
         if src_cache is not None:
             src_cache[path] = src
     f = find_function(src, u.name, u.cls, u.sig, u.nth)
@@ -832,7 +890,7 @@ def members_struct(repo, chain, cname, typemap=None, extra='', src_cache=None):
     typemap = typemap or {}
     fields = []
     for file, cls in chain:
-        src = strip_comments(open(repo + '/' + file).read())
+        src = preprocess(strip_comments(open(repo + '/' + file).read()))
         ms = extract_members(src, cls)
         if not ms:
             raise ExtractError('no data members found for ' + cls)
@@ -901,3 +959,12 @@ def extract_enum(repo, file, name, prefix=None):
         items.append('  %s%s%s' % (prefix, mm.group(1), (' = ' + val) if val is not None else ''))
     under = rw_generic(m.group(1), Rules()).strip() if m.group(1) else 'int'
     return 'enum { \n%s\n};\ntypedef %s %s;\n' % (',\n'.join(items), under, name)
+
+
+def extract_const(repo, file, name, ctype=None):
+    """`constexpr T name = expr;` -> `static const T name = expr;`"""
+    src = strip_comments(open(repo + '/' + file).read())
+    m = re.search(r'\bconstexpr\s+(?:const\s+)?([\w:]+(?:\s+[\w:]+)*?)\s+' + re.escape(name) + r'\s*=\s*([^;]+);', src)
+    if not m:
+        raise ExtractError('constant not found: ' + name)
+    return 'static const %s %s = %s;\n' % (ctype or rw_generic(m.group(1), Rules()).strip(), name, rw_generic(' '.join(m.group(2).split()), Rules()))
